@@ -133,9 +133,40 @@ def run_chunk(spec):
         except BaseException as e:
             return got, f"{type(e).__name__}: {e}"
 
+    from execnet import gateway_io
+    from vlib import pairs
+
+    ppair = pairs.Pair("pipe")
+
+    def proxy_read_back(frames, stream, mode):
+        """the proxied transport: the byte stream arrives as items of a channel, in whatever pieces the forwarder
+        happens to send (here: a body playing the forwarder sends a generated chunking, empty items included)"""
+        ch = ppair.gw.remote_exec("c = channel.receive()\nfor x in channel.receive():\n    channel.send(x)\n")
+        pio = gateway_io.ProxyIO(ch, ppair.gw.execmodel)
+        chunks, p, it = [], 0, sizes_iter(rng, mode)
+        while p < len(stream):
+            n = next(it)
+            chunks.append(stream[p:p + n])
+            p += n
+            if rng.random() < 0.05:
+                chunks.append(b"")
+        ch.send(chunks)
+        got, end = read_all(pio, len(frames), False)
+        res.count("proxied_streams_read_back")
+        res.count("frames_decoded", len(got))
+        if got != frames or end != "eof":
+            res.violation("frames-not-read-back:proxied", f"mode={mode} items={len(chunks)} end={end} got {len(got)}/{len(frames)} frames; "
+                          f"first={short([(c, i_, len(p_)) for c, i_, p_ in frames][:3])}")
+
     for i in range(spec["n"]):
         frames = gen_frames(rng, big)
         stream = b"".join(codec.frame(*f) for f in frames)
+        if not res.enough():
+            for mode in (("ones" if len(stream) < 3000 else "random"), "random", ("split", rng.randint(1, 12))):
+                try:
+                    proxy_read_back(frames, stream, mode)
+                except BaseException as e:  # noqa
+                    res.violation(f"proxied-read-back-raised:{type(e).__name__}", f"mode={mode}: {e}")
         modes = ["ones" if len(stream) < 20000 else "random", "random"]
         modes += [("split", k) for k in range(1, 10)]  # every split position inside the first header
         if len(frames) > 1:
@@ -186,6 +217,7 @@ def run_chunk(spec):
         def write(self, d):
             self.calls.append(bytes(d))
 
+    ppair.close()
     for f in gen_frames(rng, 100000):
         if not -128 <= f[0] <= 127:
             continue
